@@ -250,9 +250,9 @@ def SoftSigner.run : List SoftOp → SoftSigner → List SoftOut × SoftSigner
     let (os, final) := SoftSigner.run ops s'
     (o :: os, final)
 
-/-- the methods of `SoftwareSigner` that produce a signature. -/
-def signingMethods : List String :=
-  ["sign_psbt", "sign_message", "sign_ecdsa", "sign_schnorr", "sign_schnorr_script_path"]
+/-- the methods of `SoftwareSigner` that produce a signature: every public `sign*` of the class, as the
+    translator enumerates them from the class itself (a new one appears here, and in the guard table). -/
+def signingMethods : List String := Gen.Lifecycle.softwareSignerSigning
 
 /-! ## Wallet: `RangedWallet` -/
 
@@ -336,7 +336,7 @@ inductive WalletOp (α : Type)
   | info (a : α)
   | contains (a : α)
   | len
-  | add (a : α)         -- `KeyWallet.add(key)` for a loose key whose address is `a`
+  | add (a : Option α)  -- `KeyWallet.add(key)`: a loose key whose address is `a`; `none` = the key is refused
   deriving Repr
 
 inductive WalletOut (α : Type)
@@ -363,7 +363,8 @@ def Wallet.step {α : Type} [DecidableEq α] (src : Source α) (op : WalletOp α
     | none => (w, .err .value)
   | .contains a => (w, .bool (w.ledger.any fun p => p.1 = a))
   | .len => (w, .nat w.ledger.length)
-  | .add a => ({ w with ledger := record w.ledger a ⟨none, none⟩ }, .addr a)
+  | .add (some a) => ({ w with ledger := record w.ledger a ⟨none, none⟩ }, .addr a)
+  | .add none => (w, .err .value)
 
 def Wallet.run {α : Type} [DecidableEq α] (src : Source α) :
     List (WalletOp α) → Wallet α → List (WalletOut α) × Wallet α
@@ -422,7 +423,8 @@ def specStep {α : Type} [DecidableEq α] (src : Source α) (op : WalletOp α) (
     | none => (H, .err .value)
   | .contains a => (H, .bool (decide (a ∈ H.map (·.a))))
   | .len => (H, .nat (firstOcc (H.map (·.a))).length)
-  | .add a => (H ++ [⟨none, a⟩], .addr a)
+  | .add (some a) => (H ++ [⟨none, a⟩], .addr a)
+  | .add none => (H, .err .value)
 
 def specRun {α : Type} [DecidableEq α] (src : Source α) :
     List (WalletOp α) → List (Hand α) → List (WalletOut α) × List (Hand α)
@@ -535,5 +537,50 @@ def Backend.reference {χ ν : Type} (M : χ → ν) : List (BackendOp χ) → B
     if serving && !installed then some (.error .value) :: Backend.reference M ops flag
     else none :: Backend.reference M ops serving
   | .call x :: ops, flag => some (.ok (M x)) :: Backend.reference M ops flag
+
+/-! ## Objects that capture the arm at construction (`dsa.Signer`, `ssa.Signer`, `_TweakChain`)
+
+`Signer.__init__` asks `_libsecp256k1_serves(ec, hf)` ONCE and keeps the answer (`_pub_key_sec`,
+`_signer`, `_chain`); later calls read that, not the flag.  A free function reads the flag at every call. -/
+
+structure CapState where
+  flag : Bool
+  objs : List Bool          -- per object, in construction order: `true` = it delegates
+
+inductive CapOp (χ : Type)
+  | set (serving : Bool) (installed : Bool)
+  | build (served : Bool)           -- construct an object for an (ec, hf) the bindings serve / do not serve
+  | use (i : Nat) (x : χ)           -- call a method of the i-th object
+  | call (served : Bool) (x : χ)    -- a free dispatching function
+
+def Cap.step {χ ν : Type} (fC fPy : χ → ν) (op : CapOp χ) (st : CapState) :
+    CapState × Option (Except Err ν) :=
+  match op with
+  | .set serving installed =>
+    if serving && !installed then (st, some (.error .value)) else ({ st with flag := serving }, none)
+  | .build served => ({ st with objs := st.objs ++ [st.flag && served] }, none)
+  | .use i x =>
+    match st.objs[i]? with
+    | some arm => (st, some (.ok (if arm then fC x else fPy x)))
+    | none => (st, some (.error .foreign))
+  | .call served x => (st, some (.ok (if st.flag && served then fC x else fPy x)))
+
+def Cap.run {χ ν : Type} (fC fPy : χ → ν) : List (CapOp χ) → CapState → List (Option (Except Err ν)) × CapState
+  | [], st => ([], st)
+  | op :: ops, st =>
+    let (st', o) := Cap.step fC fPy op st
+    let (os, final) := Cap.run fC fPy ops st'
+    (o :: os, final)
+
+/-- what a history answers when every object is rebuilt afresh at each use and there is one function `M`. -/
+def Cap.reference {χ ν : Type} (M : χ → ν) : List (CapOp χ) → CapState → List (Option (Except Err ν))
+  | [], _ => []
+  | .set serving installed :: ops, st =>
+    if serving && !installed then some (.error .value) :: Cap.reference M ops st
+    else none :: Cap.reference M ops { st with flag := serving }
+  | .build served :: ops, st => none :: Cap.reference M ops { st with objs := st.objs ++ [st.flag && served] }
+  | .use i x :: ops, st =>
+    (if i < st.objs.length then some (.ok (M x)) else some (.error .foreign)) :: Cap.reference M ops st
+  | .call _ x :: ops, st => some (.ok (M x)) :: Cap.reference M ops st
 
 end Btc.C20
